@@ -257,6 +257,28 @@ func RunSubC17(spec string) {
 			note("item %d: round trip differs: %s", ci, d)
 		}
 	}
+	// Pretouch on a pointer to a live object must leave that object alone, also when
+	// other values of its type are later passed by value
+	if place != "none" {
+		for _, z := range []interface{}{&zoo.Leaf{}, &zoo.Wide{}, &zoo.MutA{}, &zoo.Defs2{}} {
+			s := gen.Zoo(z)
+			v1 := gen.NewValue(lr, s, gen.DefaultValCfg())
+			v2 := gen.NewValue(lr, s, gen.DefaultValCfg())
+			before := ref.Canon(s, v1.Elem(), ref.CmpOpts{})
+			res.LegacyCalls++
+			if err := frugal.Pretouch(v1.Interface(), frugal.WithMaxInlineDepth(3)); err != nil {
+				res.PretouchErr++
+			}
+			if err := frugal.Pretouch(v1.Elem().Interface()); err != nil {
+				res.PretouchErr++
+			}
+			fSize(v2.Elem().Interface())
+			fEncode(make([]byte, len(ref.Encode(s, v2.Elem()))+16), v2.Elem().Interface())
+			if !bytes.Equal(before, ref.Canon(s, v1.Elem(), ref.CmpOpts{})) {
+				note("an object passed to Pretouch was modified by later by-value calls on another value of type %s", s.Name)
+			}
+		}
+	}
 	// the decoder's depth bound must not follow any setting
 	for _, d := range []int{48, 100, 300, 500, 511, 512, 513, 600, 1024, 1500, 3000, 20000} {
 		steps := make([]string, d-1)
